@@ -183,6 +183,24 @@ def expr_mutants(e, columns):
         if len(items) > 1:
             out.append(("list.drop_item", "other", e[:m.start(1)] + ", ".join(items[:-1]) + e[m.end(1):]))
             out.append(("list.reorder", "list_items", e[:m.start(1)] + ", ".join(items[1:] + items[:1]) + e[m.end(1):]))
+    # arity changes: unary minus <-> subtraction (the one operator built at two arities), dropping / appending an argument
+    others = [c for c in columns]
+    for m in re.finditer(r"-\s*([A-Za-z_][A-Za-z_0-9]*)", e):
+        if m.start() > 0 and re.match(r"[A-Za-z_0-9)\]'.]", e[:m.start()].rstrip()[-1:] or " "):
+            # a binary minus `X - name`: drop the second argument by turning `X - name` into `-X` when X is a plain name
+            pm = re.search(r"([A-Za-z_][A-Za-z_0-9]*)\s*$", e[:m.start()])
+            if pm and pm.group(1) in columns:
+                out.append(("arity.binary_to_unary_minus", "arity", e[:pm.start(1)] + "(-" + pm.group(1) + ")" + e[m.end():]))
+            continue
+        c = m.group(1)
+        if c in columns:                      # a unary minus `-name`: append a second argument
+            for c2 in ([x for x in others if x != c][:1] + ["1"]):
+                out.append(("arity.unary_to_binary_minus", "arity", e[:m.start()] + "(" + c + " - " + c2 + ")" + e[m.end():]))
+    for m in re.finditer(r"\.([a-z_]+)\(([^()]*)\)", e):
+        args = [x.strip() for x in m.group(2).split(",") if x.strip()]
+        if args:
+            out.append(("arity.drop_arg", "other", e[:m.start(2)] + ", ".join(args[:-1]) + e[m.end(2):]))
+        out.append(("arity.append_arg", "other", e[:m.start(2)] + ", ".join(args + ["1"]) + e[m.end(2):]))
     m = re.search(r"\.shift\(\)", e)
     if m:
         out.append(("shift.arg", "other", e.replace(".shift()", ".shift(2)", 1)))
@@ -220,6 +238,17 @@ def spec_mutants(spec, where, in_is_none):
             if len(cells) > 1 and cells[0] != cells[1]:
                 new["control_table"][c] = [cells[1], cells[0]] + cells[2:]
                 out.append((f"convert.{where}.swap_cells", fam, new))
+    # re-arranging value cells ACROSS columns (with repeated value names under strict=False this can keep the list of
+    # distinct names in first-occurrence order and still be another layout)
+    vcols = [c for c in cols if c not in keys]
+    for i1, c1 in enumerate(vcols):
+        for c2 in vcols[i1 + 1:]:
+            for r1 in range(len(ct[c1])):
+                for r2 in range(len(ct[c2])):
+                    if ct[c1][r1] != ct[c2][r2]:
+                        new = copy.deepcopy(spec)
+                        new["control_table"][c1][r1], new["control_table"][c2][r2] = ct[c2][r2], ct[c1][r1]
+                        out.append((f"convert.{where}.swap_cells_across_columns.{r1}{r2}", fam if fam != "other" else "layout_cells", new))
     for ct2 in dict_reorders(ct):
         new = copy.deepcopy(spec)
         new["control_table"] = ct2
@@ -409,15 +438,38 @@ def extra_step(rng, g, s, colty, order):
         else:
             e = f"{rng.choice(strs)}.is_in([{', '.join(repr(x) for x in rng.sample(['a', 'b', 'c', 'dd'], rng.randint(1, 3)))}])"
         return {"op": "select_rows", "src": s, "expr": e}, colty, order
+    if nums and rng.random() < 0.5:
+        # unary minus and subtraction: the one operator that exists at two arities
+        k = g.newcol(colty)
+        c1, c2 = rng.choice(nums), rng.choice(nums)
+        e = rng.choice([f"-{c1}", f"{c1} - {c2}", f"(-{c1}) - {c2}", f"-({c1} - {c2})", f"{c1} - 1"])
+        return {"op": "extend", "src": s, "ops": {k: e}}, {**colty, k: "float"}, order + [k]
     if nums:
         k = g.newcol(colty)
-        return {"op": "extend", "src": s, "ops": {k: f"({rng.choice(nums)} == {rng.choice(['1', '0', '1.0'])}).if_else({rng.choice(['1', 'True', '1.0'])}, 0)"}}, {**colty, k: "float"}, order + [k]
+        return {"op": "extend", "src": s, "ops": {k: f"({rng.choice(nums)} =={rng.choice(['1', '0', '1.0'])}).if_else({rng.choice(['1', 'True', '1.0'])}, 0)"}}, {**colty, k: "float"}, order + [k]
     return None
 
 
 def gen_recmap_case(rng):
     """a pipeline with a convert_records step over dedicated tables (wide rows / blocks), with matching data"""
     import pipes
+    if rng.random() < 0.3:
+        # strict=False unpivot whose control table REPEATS value names (several block cells read the same row column)
+        names = ["x", "y", "z"]
+        n_rows = 2
+        cells = {"v1": [rng.choice(names) for _ in range(n_rows)], "v2": [rng.choice(names) for _ in range(n_rows)]}
+        used = []
+        for c in ("v1", "v2"):
+            for v in cells[c]:
+                if v not in used:
+                    used.append(v)
+        spec = {"record_keys": ["id"], "control_table": {"k": ["a", "b"], "v1": cells["v1"], "v2": cells["v2"]}, "control_table_keys": ["k"], "strict": False}
+        ids = list(range(1, rng.randint(2, 4)))
+        wide = {"name": "w", "spec": [("id", "int")] + [(c, "float") for c in used],
+                "rows": [[i] + [pipes.gen_value(rng, "float", 0.0) for _ in used] for i in ids]}
+        s = {"op": "convert_records", "src": {"op": "table", "name": "w", "columns": [c for c, _ in wide["spec"]]},
+             "recmap": {"blocks_in": None, "blocks_out": spec, "strict": False}}
+        return s, [wide]
     nv = rng.randint(2, 3)
     vals = [f"v{i + 1}" for i in range(nv)]
     meas = [f"m{i + 1}" for i in range(nv)]
@@ -888,7 +940,7 @@ def run(chk):
                 keep_special = {}
                 for m in special:
                     keep_special.setdefault((m[1], m[0]), m)
-                chosen = list(keep_special.values())[: max(6, n_keep // 2)] + other[: max(4, n_keep - len(keep_special))]
+                chosen = list(keep_special.values())[: max(8, n_keep * 3 // 4)] + other[: max(4, n_keep - len(keep_special))]
             pairs = ([("identity", "identity", (), json.loads(js))] if only_kinds is None or "identity" in only_kinds else []) + chosen
             extra = [frames_for(second_tables(rng, tables))]
             for kind, fam, path, s2 in pairs:
